@@ -102,6 +102,11 @@ func TestRobust(t *testing.T) {
 		if tr, ok := px.Model(g); !ok && px.TooBig(tr) {
 			pk.Discard("unbounded-growth")
 			return
+		} else if !ok && gen.MayExplode(g.Prog) {
+			// the reference evaluator stopped at a hostile construct, so it could not measure growth: programs
+			// that may grow data geometrically are not run (they exhaust memory or time, not the property)
+			pk.Discard("possible-geometric-growth(static)")
+			return
 		}
 		c := Case{ProgCase: px.FromGenerated(g)}
 		if rapid.IntRange(0, 99).Draw(rt, "tightLimits") < 40 {
@@ -112,6 +117,12 @@ func TestRobust(t *testing.T) {
 				TreeCall: limitPool[rapid.IntRange(0, len(limitPool)-1).Draw(rt, "limTree")],
 			}
 			pk.Class("tight-limits")
+			// Gate for open finding C02-009 (NewVM panics when the initialisation code exceeds a limit): while it
+			// is open, programs with global initialisers keep an operand stack that their @init code fits in.
+			if pk.GateOpen("init-under-limits") && len(g.Prog.Modules[0].Globals) > 0 && c.Limits.Stack < 16 {
+				c.Limits.Stack = 16
+				pk.Gate("init-under-limits")
+			}
 		}
 		hostile := 0
 		for k, n := range g.Feat {
